@@ -2,6 +2,7 @@
 
 from __future__ import annotations
 
+import copy
 import itertools
 import typing as t
 
@@ -265,6 +266,45 @@ class Registrations(Part):
                     if got2 != [w]:
                         out.append(Violation(f"same-id-different-class-decoded-with-wrong-class:{what}",
                                              f"session {name} (decoding order {first} first): got {got2!r}, expected {[w]!r}"))
+        # a registration whose id collides with a BUILT-IN type is a duplicate too: it is rejected - or, if a session
+        # accepts it, it takes effect (the session decodes that id with the registered class); never a silent no-op
+        for what, ident in (("control", rfc4511.OID_PAGED), ("control", rfc4511.OID_SHOW_DELETED), ("filter", 3), ("filter", 7), ("filter", 0),
+                            ("auth", 0), ("auth", 3)):
+            if side == "client" and what != "control":
+                continue
+            s = copy.deepcopy(A)
+            ctx.event(f"collision-with-built-in:{what}")
+            try:
+                getattr(s, reg[what])(custom.colliding(what, ident))
+            except ValueError:
+                continue
+            except BaseException as e:
+                out.append(Violation("duplicate-registration-wrong-exception", f"{what} {ident!r} (built-in): {e!r}"))
+                continue
+            if side == "server":
+                if what == "filter":
+                    m = history.peer_message("searchRequest", 5, 0, 0)
+                    m["filter"] = ("custom", ident, b"hello")
+                    want = dict(m, filter=("custom-filter", "hello"))
+                elif what == "auth":
+                    m = history.peer_message("bindRequest", 5, 0, 0)
+                    m["auth"] = ("custom", ident, b"joe:secret")
+                    want = dict(m, auth=("custom-auth", "joe", "secret"))
+                else:
+                    m = history.peer_message("extendedReq", 5, 0, 0)
+            else:
+                m = history.peer_message("extendedResp", s.extended_request("1.2.3"), 0, 0)
+                s.data_to_send()
+            if what == "control":
+                m["controls"] = [("generic", ident, True, (4242).to_bytes(4, "big"))]
+                want = dict(m, controls=[("custom-control", True, 4242)])
+            try:
+                got3: t.Any = [absval.to_abstract(x, decoded=True) for x in s.receive(rfc4511.encode(m))]
+            except BaseException as e:
+                got3 = type(e).__name__
+            if got3 != [want]:
+                out.append(Violation(f"registration-colliding-with-built-in-accepted-without-effect:{what}",
+                                     f"{side}: registering a {what} with the built-in id {ident!r} raised nothing, but the session decodes that id as {got3!r}"))
         # B can still register by itself (no leak of A's registration into B's duplicate check)
         for what in ["control", "filter", "auth"]:
             b2 = sess.new(side)
